@@ -36,6 +36,10 @@ type Case struct {
 	Tree     treegen.Tree `json:"tree"`
 	Patterns []string     `json:"patterns"`
 	Invalid  bool         `json:"has_invalid_pattern,omitempty"`
+	// Root (invalid-pattern cases only): what stands at the location the operation is given: "" = the directory holding
+	// the tree, "empty" = an empty directory, "file" = a regular file, "link" = a symbolic link to the directory holding the
+	// tree (OS backend), "missing" = nothing. An invalid pattern is rejected whatever is there.
+	Root string `json:"root,omitempty"`
 	// AssertCross disables the by-construction exclusion of known finding C08-R6 (only set by its replay)
 	AssertCross bool `json:"assert_cross_separator,omitempty"`
 }
@@ -147,6 +151,18 @@ func genCase(t *rapid.T) Case {
 	if rapid.IntRange(0, 14).Draw(t, "invalid") == 0 {
 		c.Invalid = true
 		c.Patterns = append(c.Patterns, rapid.SampledFrom(invalidPatterns).Draw(t, "invalid-pattern"))
+		c.Root = rapid.SampledFrom([]string{"", "", "empty", "file", "link", "missing"}).Draw(t, "root")
+		if c.Root == "link" && c.Backend != "os" {
+			c.Root = "empty"
+		}
+		switch c.Op {
+		case "remove", "cleandir", "copy", "zip":
+		default:
+			// a listing of something that is not a directory may fail for that reason first
+			if c.Root != "" {
+				c.Root = "empty"
+			}
+		}
 	}
 	return c
 }
@@ -213,8 +229,25 @@ func checkCase(t ev.T, test string, c Case) {
 	box := newBox(c.Backend)
 	defer box.Close()
 	src, dst, arch := box.Path("S"), box.Path("D"), box.Path("Z.zip")
-	if err := c.Tree.Write(box.Raw, src); err != nil {
-		t.Fatalf("HARNESS: %v", err)
+	var serr error
+	switch c.Root {
+	case "empty":
+		serr = box.Raw.MkdirAll(src, 0o755)
+	case "file":
+		serr = afero.WriteFile(box.Raw, src, []byte("content"), 0o644)
+	case "missing":
+	case "link":
+		if serr = c.Tree.Write(box.Raw, box.Path("L")); serr == nil {
+			serr = os.Symlink(box.Path("L"), src)
+		}
+	default:
+		serr = c.Tree.Write(box.Raw, src)
+	}
+	if serr != nil {
+		t.Fatalf("HARNESS: %v", serr)
+	}
+	if c.Root != "" {
+		ev.Class("invalid pattern, root: " + c.Root)
 	}
 	before := box.Snap()
 	ctx := context.Background()
